@@ -100,7 +100,7 @@ def apply(mid, d):
 
 
 def run_check(prop, d, tier, seed):
-    env = dict(os.environ, VERIF_REPO=d, VERIF_SEED=str(seed))
+    env = dict(os.environ, VERIF_REPO=d, VERIF_SEED=str(seed), VERIF_EVIDENCE_DIR=os.path.join(d, "evidence"))
     t0 = time.time()
     r = subprocess.run([os.path.join(VERIF, "check"), prop, "--tier", tier], capture_output=True, text=True, env=env)
     lines = [l for l in (r.stdout + r.stderr).splitlines() if l.startswith(("VIOLATION", "OK ", "KNOWN", "  ->"))]
